@@ -4,6 +4,7 @@ Syntactic agreement theorems on the model; the runtime half (values) is sampled 
 check only through token equality of the generated bodies — stated in the evidence assumptions.
 -/
 import O2oModel.Expand
+import O2oModel.Lemmas.Sem
 namespace O2o
 
 /-- C07-2 (try vs plain, body): for one and the same context the fallible body is `Ok(<plain body>)` — the plumbing
@@ -83,5 +84,70 @@ theorem C07_existing_vs_into_default (f : Field) (ctx ctx' : ImplContext) (name 
     simp [hm, ha, hk, hp, hv, srcIdent, hfrom, skel, Gen.tmpl_quote_action, Gen.Tm.instList, Gen.Tm.inst, List.getD, pure, Except.pure, i, dot, colon, comma]
   · unfold renderStructLine
     simp [hm, ha', hk', hc, hv', srcIdent, hfrom', skel, Gen.tmpl_quote_action, Gen.Tm.instList, Gen.Tm.inst, List.getD, pure, Except.pure, i, dot, eq, semi, Member.toTS]
+
+/-! ### values (record semantics of `O2oModel/Sem.lean`) -/
+
+/-- C07 (owned vs by-reference, any flavour): two contexts of the same direction in which every member is mapped
+    plainly to the same counterpart member (`Simple`: default or rename, as decided by the instructions that apply to
+    *that* flavour) emit token-identical member lines — hence deliver the same values. Any number of members. -/
+theorem C07_same_lines (ctx ctx' : ImplContext) (fs : List (Field × String × String))
+    (hk : ctx.kind.cls = ctx'.kind.cls) (hv : ctx.isVariant = false) (hv' : ctx'.isVariant = false)
+    (hpost : ctx.hasPostInit = false) (hpost' : ctx'.hasPostInit = false)
+    (hs : ∀ t ∈ fs, Simple ctx t.1 t.2.1 t.2.2) (hs' : ∀ t ∈ fs, Simple ctx' t.1 t.2.1 t.2.2) :
+    ∃ body, flatLines ctx .unspecified (fs.map (·.1)) 0 = .ok body ∧ flatLines ctx' .unspecified (fs.map (·.1)) 0 = .ok body := by
+  have key : ∀ (c : ImplContext) (line : Field × String × String → TS),
+      (∀ t ∈ fs, fieldSkipped c t.1 = false ∧ ∀ k, renderStructLine t.1 c .unspecified k none = .ok (line t)) →
+      flatLines c .unspecified (fs.map (·.1)) 0 = .ok (fs.flatMap line) := by
+    intro c line h
+    have := flatLines_of_lines c .unspecified (fs.map fun t => (t.1, line t)) 0 (by
+      intro t ht
+      obtain ⟨u, hu, rfl⟩ := List.mem_map.mp ht
+      exact h u hu)
+    simpa [List.map_map, List.flatMap_map, Function.comp_def] using this
+  cases hc : ctx.kind.cls with
+  | from_ =>
+    have hc' : ctx'.kind.cls = .from_ := by rw [← hk, hc]
+    exact ⟨_, key ctx (fun t => tokLine t.2.1 "value" t.2.2) (fun t ht => ⟨(hs t ht).notSkipped, fun k => simple_line_from ctx _ _ _ k (hs t ht) hc hv⟩),
+      key ctx' _ (fun t ht => ⟨(hs' t ht).notSkipped, fun k => simple_line_from ctx' _ _ _ k (hs' t ht) hc' hv'⟩)⟩
+  | into =>
+    have hc' : ctx'.kind.cls = .into := by rw [← hk, hc]
+    exact ⟨_, key ctx (fun t => tokLine t.2.2 "self" t.2.1) (fun t ht => ⟨(hs t ht).notSkipped, fun k => simple_line_into ctx _ _ _ k (hs t ht) hc hv hpost⟩),
+      key ctx' _ (fun t ht => ⟨(hs' t ht).notSkipped, fun k => simple_line_into ctx' _ _ _ k (hs' t ht) hc' hv' hpost'⟩)⟩
+  | existing =>
+    have hc' : ctx'.kind.cls = .existing := by rw [← hk, hc]
+    exact ⟨_, key ctx (fun t => tokAssign t.2.2 "self" t.2.1) (fun t ht => ⟨(hs t ht).notSkipped, fun k => simple_line_existing ctx _ _ _ k (hs t ht) hc hv⟩),
+      key ctx' _ (fun t ht => ⟨(hs' t ht).notSkipped, fun k => simple_line_existing ctx' _ _ _ k (hs' t ht) hc' hv'⟩)⟩
+
+/-- C07 (Into vs IntoExisting, values): the record built by `into` and the record left by `into_existing` — whatever
+    the existing record held before — agree on every designated member: both hold the value of the member mapped to it -/
+theorem C07_value_into_vs_existing (ctxI ctxE : ImplContext) (fs : List (Field × String × String))
+    (hkI : ctxI.kind.cls = .into) (hkE : ctxE.kind.cls = .existing) (hvI : ctxI.isVariant = false) (hvE : ctxE.isVariant = false)
+    (hpost : ctxI.hasPostInit = false)
+    (hsI : ∀ t ∈ fs, Simple ctxI t.1 t.2.1 t.2.2) (hsE : ∀ t ∈ fs, Simple ctxE t.1 t.2.1 t.2.2)
+    (hnd : (fs.map (·.2.2)).Nodup) :
+    ∃ bI bE, flatLines ctxI .unspecified (fs.map (·.1)) 0 = .ok bI ∧ flatLines ctxE .unspecified (fs.map (·.1)) 0 = .ok bE ∧
+      ∀ (s other : Sem.Rec), (∀ t ∈ fs, (s.get? t.2.1).isSome) →
+        ∃ r1 r2, Sem.evalInit "self" s bI = some r1 ∧ Sem.execBody "self" s bE other = some r2 ∧
+          ∀ t ∈ fs, Sem.Rec.get? r1 t.2.2 = Sem.Rec.get? r2 t.2.2 := by
+  obtain ⟨bI, hbI, hI⟩ := value_into ctxI fs hkI hvI hpost hsI
+  obtain ⟨bE, hbE, hE⟩ := value_existing ctxE fs hkE hvE hsE
+  refine ⟨bI, bE, hbI, hbE, ?_⟩
+  intro s other hdef
+  obtain ⟨r2, hr2, _, hin⟩ := hE s other hdef
+  -- the Into record exists because every member is present in `s`
+  have hex : ∃ r1, fs.mapM (fun t => (s.get? t.2.1).map fun v => (t.2.2, v)) = some r1 := by
+    have := roundtrip_pairs (fs.map fun t => (t.2.1, t.2.2)) s (by simpa [List.map_map, Function.comp_def] using hnd) (by
+      intro p hp
+      obtain ⟨u, hu, rfl⟩ := List.mem_map.mp hp
+      exact hdef u hu)
+    obtain ⟨r, hr, _⟩ := this
+    exact ⟨r, by simpa [List.mapM_map, Function.comp_def] using hr⟩
+  obtain ⟨r1, hr1⟩ := hex
+  refine ⟨r1, r2, by rw [hI s]; exact hr1, hr2, ?_⟩
+  intro t ht
+  have h1 := mapM_get s (fs.map fun t => (t.2.1, t.2.2)) r1 (by simpa [List.mapM_map, Function.comp_def] using hr1)
+    (by simpa [List.map_map, Function.comp_def] using hnd) (t.2.1, t.2.2) (List.mem_map.mpr ⟨t, ht, rfl⟩)
+  simp only at h1
+  rw [h1, hin hnd t ht]
 
 end O2o
